@@ -135,6 +135,10 @@ def run(ctx):
     ctx.check("C19-R3", "FromStr tries both formats", s2 == ["return Result::or_else(Sha256Digest::from_str_fmt(s,Sha256DigestFmt::BytesArray),closure:<Sha256Digest as FromStr>::{closure#0})"] and s3 == ["return Sha256Digest::from_str_fmt(s,Sha256DigestFmt::DottedHex)"],
               "Sha256Digest::from_str does not try BytesArray then DottedHex: %s %s" % (s2, s3), where(g))
 
+    ctx.rule("C19-R5", "a generated certificate is accepted by pinning configured with its own hash, however the pin set was built")
+    from rules import shared
+    shared.hash_pin_set(ctx, "C19-R5")
+
     ctx.rule("C19-R4", "no undischarged panic obligation in the digest / DER / PEM parsers")
     n = 0
     lemma = {
